@@ -231,7 +231,9 @@ func (m *Morass) write() {
 		}
 	}
 
-	m.setErr(tf.Sync())
+	if err := tf.Sync(); err != nil {
+		m.setErr(err)
+	}
 }
 
 func (m *Morass) setErr(err error) {
